@@ -43,7 +43,7 @@ type coComp struct {
 
 func init() { components["co"] = &coComp{} }
 
-const coDeadline = 20 * time.Second
+var coDeadline = scaled(20 * time.Second)
 
 // once an operation hung, every later operation of the process answers `hang` at once
 // (otherwise a broken tree would cost one deadline per operation).
